@@ -229,3 +229,15 @@ PROPS["C08"] = dict(
     trusted=COMMON_TRUST + ["Galerkin product recomputed at double precision, tolerance 1e-8 relative to the largest coarse entry"],
     assumptions=["coarsening quality is not part of the property"],
 )
+
+PROPS["C17"] = dict(
+    module="RaptorModel.Props.C17",
+    harnesses=["h_c17"],
+    configs=seqpar_configs("h_c17", [1, 2, 3, 4, 7], list(range(1, 17))),
+    rule=("well-conditioned SPD systems (weighted graph Laplacian + shift) for CG and non-symmetric diagonally dominant systems for BiCGStab, "
+          "size 1..120 (thorough: larger), right-hand sides/initial guesses: random, exact solution, b = 0, x0 = 0; tolerances 1e-2/1e-5/1e-9; "
+          "default and explicit iteration limits; every iterate recovered by re-running with max_iter = k; layouts incl. empty ranks; "
+          "inner product / 2-norm on vectors with a NaN, an infinity or tiny entries at a random position. Non-trivial = more than one unknown."),
+    trusted=COMMON_TRUST + ["the driver's independent SpMV/norm at double precision; rounding drift tolerance 1e-6 relative"],
+    assumptions=["rounding drift between the recurrence residual and the true residual is outside the theorem (exact arithmetic)"],
+)
